@@ -95,18 +95,23 @@ class LineRecorder(io.StringIO):
         return super().write(s)
 
 
-def check_export(results, header, stats=None):
+def check_export(results, header, stats=None, split=None, reuse=False):
+    """split: None or k - the results from index k on are written by a SECOND PbnWriter on the same stream (an export
+    continued later); reuse: one PbnParser object reads the text twice (parse_all, then parse_board_settings)."""
     from bridge_env.data_handler.pbn_handler.writer import PbnWriter, Scoring
     from bridge_env.data_handler.pbn_handler.parser import PbnParser
     from bridge_env import Hands
-    case = {'results': [describe(r) for r in results], 'header': header}
+    split = None if split is None or not (0 < split % max(1, len(results)) < len(results)) else split % len(results)
+    case = {'results': [describe(r) for r in results], 'header': header, 'second_writer_from': split, 'parser_reused': reuse}
     buf = LineRecorder()
 
     def write():
         w = PbnWriter(buf)
         if header:
             w.write_header()
-        for r in results:
+        for i, r in enumerate(results):
+            if split is not None and i == split:
+                w = PbnWriter(buf)
             contract, tricks = mk_contract(r)
             w.write_board_result(event=r['event'], site=r['site'], date=r['date'], board_num=r['board_num'],
                                  west_player=r['players'][3], north_player=r['players'][0], east_player=r['players'][1],
@@ -116,7 +121,8 @@ def check_export(results, header, stats=None):
     text = buf.getvalue()
     for line in text.splitlines(keepends=True):
         check(len(line) <= 255, 'a written line exceeds 255 characters', case, {'length': len(line), 'line': line[:80]})
-    games = guard('PbnParser.parse_all raises on PbnWriter output', case, lambda: PbnParser().parse_all(io.StringIO(text)))
+    shared = PbnParser()
+    games = guard('PbnParser.parse_all raises on PbnWriter output', case, lambda: (shared if reuse else PbnParser()).parse_all(io.StringIO(text)))
     check(len(games) == len(results), 'consecutive board results are not read back as separate games', case,
           {'games_read': len(games), 'results_written': len(results)})
     for i, (r, g) in enumerate(zip(results, games)):
@@ -139,7 +145,7 @@ def check_export(results, header, stats=None):
         check(be.hands_to_ints(hands) == PL.hands_of(r['owner']), 'Deal tag decodes to different hands', rc, {'Deal': g['Deal']})
         check(list(g.keys())[:15] == MP.MANDATORY_EXPORT_TAGS, 'mandatory tags are not in the prescribed order', rc, {'got': list(g.keys())})
     bs = guard('PbnParser.parse_board_settings raises on PbnWriter output', case,
-               lambda: PbnParser().parse_board_settings(io.StringIO(text)))
+               lambda: (shared if reuse else PbnParser()).parse_board_settings(io.StringIO(text)))
     check(len(bs) == len(results), 'board settings recovered: wrong number of boards', case, {'got': len(bs)})
     for i, (r, b) in enumerate(zip(results, bs)):
         ok = (b.board_id == str(r['board_num']) and b.dealer is be.SEAT[r['dealer']] and b.vul is be.VUL[r['vul']]
@@ -147,6 +153,10 @@ def check_export(results, header, stats=None):
         check(ok, 'board setting recovered from the export differs', dict(case, game=i), {'got': repr(b)[:300]})
     if stats is not None:
         stats.evaluated()
+        if split is not None:
+            stats.cls('export continued by a second writer on the same stream')
+        if reuse:
+            stats.cls('one parser object used for both reads')
         stats.cls(f'{min(len(results), 3)}{"+" if len(results) >= 3 else ""} results' + (' with header' if header else ''))
         po = any(r['contract'] in (None, 'Pass') for r in results)
         dbl = any(isinstance(r['contract'], tuple) and r['contract'][1] > 0 for r in results)
@@ -180,8 +190,9 @@ def check_write_line(s, stats=None):
 def fuzz_target(name, stats):
     """(test function, strategies) - shared by the in-process Hypothesis tier and the atheris tier."""
     if name == 'export':
-        return (lambda results, header: check_export(results, header, stats),
-                {'results': st.lists(RESULT, min_size=1, max_size=6), 'header': st.booleans()})
+        return (lambda results, header, split, reuse: check_export(results, header, stats, split, reuse),
+                {'results': st.lists(RESULT, min_size=1, max_size=6), 'header': st.booleans(),
+                 'split': st.one_of(st.none(), st.none(), st.integers(1, 5)), 'reuse': st.booleans()})
     s = st.one_of(st.text(alphabet=ALPHA, min_size=1, max_size=300), st.text(alphabet=ALPHA, min_size=250, max_size=260),
                   st.text(alphabet=ALPHA, min_size=500, max_size=2000))
     return (lambda s: check_write_line(s, stats), {'s': s})
@@ -203,7 +214,7 @@ def replay(rec):
         if 'write_line' in c:
             check_write_line(c['write_line'])
         else:
-            check_export([undescribe(d) for d in c['results']], c['header'])
+            check_export([undescribe(d) for d in c['results']], c['header'], None, c.get('second_writer_from'), c.get('parser_reused', False))
     except Violation as v:
         return v
     return None
